@@ -386,6 +386,14 @@ class Body:
             stack.extend(self.bsucc[x])
         return seen
 
+    def local_name(self, l):
+        """Source-level name of a local (debug info), or _N."""
+        for d in self.fn["mir"].get("debug", []):
+            pl = d.get("place")
+            if pl and pl["l"] == l and not pl["p"]:
+                return d["name"]
+        return "_%d" % l
+
     def loops(self):
         """Back edges (a->h with h dominating a) => natural loop headers."""
         heads = defaultdict(set)
